@@ -45,7 +45,7 @@ def file_cfg(draw):
     # reader options
     opts = {}
     if kind in ("vdif_sample", "vdif_real", "vdif_complex", "dada_sample", "dada_complex"):
-        opts["lsb"] = draw(st.sampled_from(["false", "false", "true", "array"]))
+        opts["lsb"] = draw(st.sampled_from(["false", "true", "array", "array"]))
         opts["sigtype"] = draw(st.sampled_from(["Signal", "Signal", "BasebandSignal"]))
         opts["squeeze"] = draw(st.sampled_from([None, False]))
         if kind in ("vdif_real", "vdif_sample") and draw(st.integers(0, 3)) == 0:
@@ -492,10 +492,19 @@ class ReaderMachine(HistoryMachine):
         n = data.draw(st.one_of(st.integers(0, min(L, 40)), st.sampled_from([0, 1, 2, 3, 5, spf, spf + 1, 2 * spf + 1]), st.integers(0, min(L, 3 * spf))))
         return o, n
 
-    @rule(data=st.data())
-    def read(self, data):
+    @rule(data=st.data(), times=st.sampled_from([1, 1, 2, 2, 3]))
+    def read(self, data, times):
         o, n = self._pos(data)
-        self.do(["read", o, n])
+        self._last = (o, n)
+        for _ in range(times):  # the same request several times in a row is part of "any sequence of reads"
+            self.do(["read", o, n])
+
+    @precondition(lambda self: getattr(self, "_last", None) is not None)
+    @rule(times=st.integers(1, 3))
+    def reread(self, times):
+        # the very same request again, immediately (caches of "the last block")
+        for _ in range(times):
+            self.do(["read", self._last[0], self._last[1]])
 
     @rule(data=st.data(), chunk=st.sampled_from([None, None, "ones", "half"]))
     def dask(self, data, chunk):
